@@ -309,6 +309,7 @@ def run(idx: ProgramIndex, rep: Report, tier: str, selftest: bool = True):
                  and n.func.attr == "save_for_backward"]
         fw_lists = local_lists(f.fw)
         saved_layouts: Set[Tuple[int, int]] = set()
+        saved_unknown = False
         for s in saves:
             arg = s.args[0] if s.args else None
             if arg is None:
@@ -321,6 +322,11 @@ def run(idx: ProgramIndex, rep: Report, tier: str, selftest: bool = True):
                 lay = list_layout(ast.List(elts=list(s.args), ctx=ast.Load()), {})
                 lays = [lay] if lay else []
             for lay in lays:
+                if sum(1 for k, _ in lay if k == "many") > 1:
+                    # a second starred segment (e.g. *solve_terms returned by a helper) has a length the ast does not show
+                    rep.note(f"{who}.forward: save_for_backward with several starred segments; layout not compared")
+                    saved_unknown = True
+                    continue
                 saved_layouts.add((prefix_len(lay), suffix_len(lay) if any(k == "many" for k, _ in lay) else 0))
         unpack_layouts: Set[Tuple[int, int]] = set()
         before_idx, after_idx = 0, 0
@@ -399,6 +405,8 @@ def run(idx: ProgramIndex, rep: Report, tier: str, selftest: bool = True):
         sample = {"function": who, "saved_layouts(before,after)": sorted(saved_layouts), "unpacked_layouts": sorted(unpack_layouts)}
         if not saves:
             rep.ok("C07.P3", {**sample, "note": "nothing saved"})
+        elif saved_unknown and not saved_layouts:
+            rep.count("C07.P3")
         elif saved_layouts and unpack_layouts and (saved_layouts == unpack_layouts or (
                 saw_index_form and all(any(s[0] >= u[0] and s[1] == u[1] for s in saved_layouts) for u in unpack_layouts)
                 and all(any(s[1] == u[1] for u in unpack_layouts) for s in saved_layouts))):
